@@ -11,7 +11,7 @@ for n in 1 2 3; do
   cd $wt && git checkout -q -- . && rm -rf tests && touch crates/core/src/lib.rs crates/macros/src/lib.rs
   res=$out/confirm$n.txt; : > $res
   mkdir -p tests && cp $out/demo$n.rs tests/demo$n.rs
-  feat=$(grep -o -- '--features [a-z,]*' $out/demo$n.rs | head -1)
+  feat=$(grep -oE -- '--features "?(serde|data|macros)(,(serde|data|macros))*' $out/demo$n.rs | head -1 | tr -d '"')   # only the crate's real features (a comment may say "no --features needed")
   cargo test --offline $feat --test demo$n >/dev/null 2>&1; echo "demo_without_change_rc=$?" >> $res
   git apply $out/change$n.diff || { echo "apply_failed" >> $res; continue; }
   touch crates/core/src/lib.rs crates/macros/src/lib.rs   # grammar files are not tracked by cargo
